@@ -22,8 +22,8 @@ func h15Signed(n Number) mInt {
 // (fd1, fd2) chosen symbolically from [lo,hi]x[lo,hi] and then concretised.
 func H15a() {
 	lo, hi := param("fdlo"), param("fdhi")
-	fdn := concretize(symInt(lo, hi))
-	fdm := concretize(symInt(lo, hi))
+	fdn := symRange(lo, hi)
+	fdm := symRange(lo, hi)
 	n, m := h15Number(fdn), h15Number(fdm)
 	// n < m  <=>  sn*10^fdm < sm*10^fdn
 	a := mMulPow10(h15Signed(n), fdm)
@@ -46,7 +46,7 @@ func H15b() {
 		fits := symAnd(mLe(mI(-1<<63), h15Signed(n)), mLe(h15Signed(n), mI(1<<63-1)))
 		check(!fits, "Int() errors only when the value does not fit int64")
 	}
-	d := h15Number(concretize(symInt(1, 18)))
+	d := h15Number(symRange(1, 18))
 	_, derr := d.Int()
 	check(derr != nil, "Int() of a decimal is an error")
 }
@@ -67,7 +67,7 @@ func H15e() {
 
 // H15c: printing and parsing back at the same precision gives an equal number.
 func H15c() {
-	fd := concretize(symInt(param("fdlo"), param("fdhi")))
+	fd := symRange(param("fdlo"), param("fdhi"))
 	n := h15Number(fd)
 	s := n.String()
 	var back Number
@@ -108,8 +108,8 @@ func h15Digits(k int, lead bool) ([]byte, mInt) {
 // H15d: a decimal literal [sign] digits [. digits] parses to exactly the number it denotes,
 // or to an error when it does not fit. ia = integer digits, fb = fraction digits (0: no dot).
 func H15d() {
-	ia := concretize(symInt(param("ialo"), param("iahi")))
-	fb := concretize(symInt(param("fblo"), param("fbhi")))
+	ia := symRange(param("ialo"), param("iahi"))
+	fb := symRange(param("fblo"), param("fbhi"))
 	sign := symChoice(3) // none, +, -
 	ib, iv := h15Digits(ia, true)
 	var lit []byte
@@ -144,7 +144,7 @@ func H15d() {
 		}
 		return
 	}
-	fd := concretize(symInt(param("fdlo"), param("fdhi")))
+	fd := symRange(param("fdlo"), param("fdhi"))
 	n, err := ParseDecimal(string(lit), uint8(fd))
 	if err == nil {
 		reach("dec-accepted")
